@@ -205,6 +205,14 @@ func (c *Class) Evaluation(
 		case isEnclosed:
 			parentFrame = enclosingFrame
 
+		// class Dog < Base with a top-level user class Base: a configured class
+		// of that short name in another frame (ActiveRecord::Base) is unrelated
+		case parentFrame == "" && parentNamespace == "" &&
+			!base.IsClassDefinedIn("Builtin", parentClass) &&
+			base.IsClassDefinedIn("", parentClass):
+
+			parentFrame = ""
+
 		case slices.Contains(base.BuiltinClasses, parentClass) && parentNamespace == "":
 			parentFrame = "Builtin"
 
